@@ -10,7 +10,7 @@ import z3
 
 from symx.core import Explorer, SInt, SReal, SBool, sym_int, sym_bool, to_z3
 from symx.shims import SDateTime
-from vf.common import Harness, shimmed, real, explore
+from vf.common import Harness, shimmed, real, explore, reset_mutable_class_state
 from . import models
 from .fakeinv import const_crc, drive
 
@@ -21,6 +21,9 @@ DEVICES = {
     "ET745": {"family": "ET", "serial": "9010KETT218W0001", "rated_power": 10000, "refuse": []},
     "ETv1": {"family": "ET", "serial": "9010KETU218W0001", "rated_power": 10000, "refuse": ["eco_v2", "peak_shaving"]},
     "ETunset": {"family": "ET", "serial": "9010KETU218W0001", "rated_power": 10000, "refuse": []},
+    # firmware that answers the export-limit register with ILLEGAL DATA ADDRESS (what one unit refuses must not be
+    # remembered for another)
+    "ETnolimit": {"family": "ET", "serial": "9010KETU218W0001", "rated_power": 10000, "refuse": [], "refuse_addrs": [47510]},
     "ES": {"family": "ES", "serial": "95048ESU218W0001", "firmware": "2323G"},
     "DT": {"family": "DT", "serial": "9010KDTU218W0001", "refuse": []},
     "DT1": {"family": "DT", "serial": "9010KDSN218W0001", "refuse": []},
@@ -32,15 +35,23 @@ PAIRS = [("ET", "ET"), ("ET", "ET745"), ("ET745", "ET"), ("ET", "ES"), ("DT", "E
 OPS = ("runtime", "read_eco", "read_scalar", "write_scalar", "write_eco", "eco_charge", "read_sensor")
 
 
+_DEF_KEYS = {}
+
+
 def reset_class_state(M):
     """The eco-mode/schedule definition objects live in class attributes: bring them back to their constructor state
     so that a path does not inherit what an earlier path left there (the *property* is checked from a fresh process
     state; leaking between objects within one path is what the check is about)."""
     S = M.sensor
+    reset_mutable_class_state(M, modules=("protocol", "inverter", "et", "es", "dt"))
     for cls_ in (M.et.ET, M.es.ES, M.dt.DT):
         for name, val in vars(cls_).items():
             if isinstance(val, tuple) and val and all(hasattr(x, "id_") for x in val):
                 for s in val:
+                    # attributes a definition object acquired at run time (memoised readings ...) are dropped
+                    keys = _DEF_KEYS.setdefault(id(s), frozenset(vars(s)))
+                    for extra in [k for k in vars(s) if k not in keys]:
+                        delattr(s, extra)
                     if isinstance(s, (S.EcoModeV1, S.Schedule)):
                         fresh = type(s)(s.id_, s.offset, s.name)
                         s.__dict__.update(fresh.__dict__)
@@ -127,11 +138,17 @@ class TwoObjects(Harness):
                 return 0xFF7F
             if addr in (47510, 40328, 40336):
                 return val(f"{who}_limit", 0, 0xFFFE)
+            if cfg["family"] == "DT" and addr in (30197, 30198):
+                # a DT meter total (4-byte energy counter): any content, including the 'no value' pattern
+                return val(f"{who}_m{addr - 30197}", 0, 0xFFFF)
             return (addr * 31 + 17 + 1000 * k) % 3000
         inv, fake = models.make(M, cfg, default=lambda a: 1, crc=crc)
         info = range(0x88b8, 0x88b8 + 0x21) if cfg["family"] == "ET" else range(0x7531, 0x7531 + 0x28)
         fake.regs = {a: v for a, v in fake.regs.items() if a in info}
         fake.default = default
+        if cfg.get("refuse_addrs"):
+            base_refuse, extra = fake.refuse, tuple(cfg["refuse_addrs"])
+            fake.refuse = lambda a, c: a in extra or base_refuse(a, c)
         if cfg["family"] == "ES":
             fake.es_runtime = [default(("s", i)) for i in range(142)]
             fake.es_settings = [default(("s", i + 200)) for i in range(86)]
@@ -351,6 +368,11 @@ def tasks(tier, seed):
     for pair in PAIRS:
         for sa in seqs:
             for sb in seqs:
+                items.append((pair, sa, sb))
+    scalar = [("write_scalar", "read_scalar"), ("read_scalar", "read_eco")]
+    for pair in (("ETnolimit", "ET"), ("ET", "ETnolimit")):
+        for sa in scalar:
+            for sb in scalar:
                 items.append((pair, sa, sb))
     n = 48 if tier == "quick" else 96
     ts = [{"name": f"two-{i}", "items": items[i::n]} for i in range(n) if items[i::n]]
